@@ -6,8 +6,10 @@ clause of the statement is a direct comparison against the generated input:
 
   shape        expanded data (squeezed) has the original (rows, cols)
   bn_keys      no BN_* keyword is left after expand
-  wcs_keys     CRPIX1/2 and CDELT1/2 (or CD1_1/CD2_2) equal the originals (tolerance below), every other WCS keyword
-               is untouched; wcs_sky: the image corners map to the same sky under both headers (refs/wcs_zenithal)
+  wcs_keys     CRPIX1/2 and CDELT1/2 (or all four CD terms, rotated and skewed matrices included) equal the originals
+               (tolerance below), every other WCS keyword is untouched, none is added (the compressed file's own WCS is
+               not judged - for rotated inputs the code leaves CD1_2/CD2_1 unscaled there, the statement only demands
+               that the round trip restores them); wcs_sky: the image corners map to the same sky under both headers (refs/wcs_zenithal)
   nodes        expanded[kf, lf] == float32(original[kf, lf]) exactly, for every decimation node
   range        min/max of the expanded image lie within [min, max] of the compressed samples
   range_of_image  ... and hence within [min, max] of the original image, whose samples the compressed ones are
@@ -35,7 +37,8 @@ LEVEL = 'exploration'
 RULE = ('bounded-exhaustive block: every (rows, cols) in 2..40 x 2..40 with every factor 1..12 and the factors 41, 64 '
         '(factor > size), in memory, one in 9 also through files; seeded random shapes to 400 with factors to 64 '
         '(file and HDUList input, float32/float64, 3-D/4-D degenerate axes, fully random and bilinear images); headers '
-        'rotate through SIN/TAN/ZEA/ARC/STG, CDELT and CD form, both signs, non-integer and off-image CRPIX; compressed '
+        'rotate through SIN/TAN/ZEA/ARC/STG, CDELT and CD form (CD: rotation-free, rotated by any angle, slightly rotated '
+        'and skewed, i.e. non-zero CD1_2/CD2_1), both signs, non-integer and off-image CRPIX; compressed '
         'aux files through load_image_band, SourceFinder._load_aux_image and load_globals; thorough adds the SR6 CLI '
         '(with and without -f, with -m) and BANE --compress output.  One evaluation = one compress+expand round trip '
         '(or one aux load) with all clauses judged; non-trivial = factor > 1; distinct = distinct '
@@ -49,11 +52,13 @@ MIN_REACH = {'fits_tools:compress': 1, 'fits_tools:expand': 1, 'fits_tools:load_
              'source_finder:SourceFinder._load_aux_image': 1}
 MIN_COUNTERS = {
     'quick': {'roundtrips': 15000, 'roundtrips_file': 1000, 'nodes_checked': 100000, 'linear_cells_judged': 5000,
-              'residual_rows_and_cols': 3000, 'factor_gt_size': 500, 'aux_loads': 100, 'cd_headers': 3000,
+              'residual_rows_and_cols': 3000, 'factor_gt_size': 500, 'aux_loads': 100, 'cd_headers': 3000, 'cd_rotated': 1500, 'cd_skewed': 1500,
+              'offdiagonal_cd_terms_compared': 5000,
               'noninteger_crpix': 3000, 'negative_cdelt2': 1000},
     'thorough': {'roundtrips': 40000, 'roundtrips_file': 4000, 'nodes_checked': 1000000,
                  'linear_cells_judged': 20000, 'residual_rows_and_cols': 10000, 'factor_gt_size': 2000,
-                 'aux_loads': 400, 'cd_headers': 8000, 'noninteger_crpix': 8000, 'negative_cdelt2': 3000,
+                 'aux_loads': 400, 'cd_headers': 8000, 'cd_rotated': 4000, 'cd_skewed': 4000,
+                 'offdiagonal_cd_terms_compared': 15000, 'noninteger_crpix': 8000, 'negative_cdelt2': 3000,
                  'sr6_runs': 100, 'bane_compressed_runs': 4},
 }
 
@@ -66,7 +71,7 @@ PROJS = ('SIN', 'TAN', 'ZEA', 'ARC', 'STG')
 
 
 # ----------------------------------------------------------------------------- generators
-def header_for(idx, rows, cols, rng):
+def header_for(idx, rows, cols, rng, allow_rot=True):
     """a header whose form is chosen by the running index so that the exhaustive block covers every form"""
     proj = PROJS[idx % 5]
     use_cd = (idx // 5) % 2 == 1
@@ -85,7 +90,29 @@ def header_for(idx, rows, cols, rng):
         crpix = (round(rng.uniform(-300, 300), 2), round(rng.uniform(-300, 300), 2))
     crval = (rng.uniform(0, 360), rng.uniform(-75, 75))
     h = wz.make_header(proj, crval, crpix, cd, (rows, cols), beam=(scale * 4, scale * 3, 10.0), use_cd=use_cd)
-    return h, {'proj': proj, 'cd': use_cd, 'crpix_form': form, 'neg_cdelt2': s2 < 0,
+    # CD form: one third rotation-free, one third rotated by any angle, one third slightly rotated and skewed
+    rot = 'none'
+    if use_cd and allow_rot:
+        kind = (idx // 3) % 3
+        if kind:
+            if kind == 1:
+                rot = 'rotated'
+                th = np.radians(rng.choice([rng.uniform(0, 360), 90.0, 180.0, 45.0, 30.0, -0.01], p=[.75, .05, .05, .05, .05, .05]))
+                e12 = e21 = 0.0
+            else:
+                rot = 'skewed'
+                th = np.radians(rng.uniform(-3, 3))
+                e12, e21 = rng.uniform(-0.2, 0.2, 2)
+            c, s_ = np.cos(th), np.sin(th)
+            h['CD1_1'] = float(cd[0] * c)
+            h['CD1_2'] = float(-cd[1] * s_ * (1 + e12) + cd[1] * e12 * 0.01)
+            h['CD2_1'] = float(cd[0] * s_ * (1 + e21) + cd[0] * e21 * 0.01)
+            h['CD2_2'] = float(cd[1] * c)
+            if abs(h['CD1_1']) < 1e-3 * scale or abs(h['CD2_2']) < 1e-3 * scale:
+                # keep the diagonal terms away from 0 (relative keyword tolerances; BANE's pixel scale uses them)
+                h['CD1_1'] = float(cd[0] * 0.05)
+                h['CD2_2'] = float(cd[1] * 0.05)
+    return h, {'proj': proj, 'cd': use_cd, 'cd_form': rot, 'crpix_form': form, 'neg_cdelt2': s2 < 0,
                'nonint': any(float(c) != int(c) for c in crpix)}
 
 
@@ -113,6 +140,37 @@ def make_image(rows, cols, f, rng, linear=True, dtype=np.float32):
     else:
         K = L = 0
     return img.astype(dtype), (K, L)
+
+
+_ROT_CHECKED = False
+
+
+def selfcheck_rotated():
+    """refs/wcs_zenithal.selfcheck() only uses diagonal matrices: cross-check the full CD matrix (rotation, skew)
+    against astropy.wcs once per process.  A failure is an oracle fault (harness error), never a violation."""
+    global _ROT_CHECKED
+    if _ROT_CHECKED:
+        return
+    from astropy.wcs import WCS
+    rng = np.random.default_rng(15)
+    worst = 0.0
+    for k in range(60):
+        h, info = header_for(5 + 3 * (1 + k % 2) + 30 * k, 64, 48, rng)      # idx chosen to give CD + rotated/skewed
+        if info['cd_form'] == 'none':
+            continue
+        w = WCS(h, naxis=2)
+        z = wz.ZenithalWCS(h)
+        p1, p2 = np.meshgrid(np.linspace(-10, 80, 5), np.linspace(-20, 90, 5))
+        sky = w.wcs_pix2world(np.column_stack([p1.ravel(), p2.ravel()]), 1)
+        ra, dec = z.pix2sky(p1.ravel(), p2.ravel())
+        worst = max(worst, float(np.max(sphere.sep(sky[:, 0], sky[:, 1], ra, dec))))
+        q1, q2 = z.sky2pix(ra, dec)
+        worst = max(worst, float(np.max(np.hypot(q1 - p1.ravel(), q2 - p2.ravel()))) * abs(h['CD2_2']))
+    if not worst < 1e-10:
+        raise RuntimeError('oracle fault: ZenithalWCS with a rotated CD matrix disagrees with astropy.wcs by %g deg' % worst)
+    _ROT_CHECKED = worst if worst > 0 else True
+    if worst == 0.0:
+        raise RuntimeError('oracle fault: rotated-CD self-check exercised no rotated header')
 
 
 # ----------------------------------------------------------------------------- oracle for one round trip
@@ -147,20 +205,41 @@ def judge(o, wit, orig_img, orig_hdr, comp_data, exp_data, exp_hdr, f, KL, judge
     left = [k for k in exp_hdr if str(k).startswith('BN_')]
     if left:
         o.violate('bn_keys', dict(wit, left=left))
-    # WCS keywords
-    scaled = ['CRPIX1', 'CRPIX2'] + (['CD1_1', 'CD2_2'] if 'CD1_1' in orig_hdr else ['CDELT1', 'CDELT2'])
+    # WCS keywords: every one of them is compared.  CRPIX and the pixel-scale terms (CDELT or all four CD terms)
+    # are recomputed by compress/expand, so they get the float tolerance; an off-diagonal term that is 0 in the
+    # original is measured against the largest CD term
+    cdform = 'CD1_1' in orig_hdr
+    scaled = ['CRPIX1', 'CRPIX2'] + (['CD1_1', 'CD1_2', 'CD2_1', 'CD2_2'] if cdform else ['CDELT1', 'CDELT2'])
+    cdmax = max(abs(float(orig_hdr[k])) for k in scaled[2:] if k in orig_hdr)
     for k in scaled:
+        if k not in orig_hdr:
+            if k in exp_hdr and float(exp_hdr[k]) != 0.0:
+                o.violate('wcs_keys', dict(wit, key=k, restored=repr(exp_hdr[k]), original=None))
+            continue
         if k not in exp_hdr:
             o.violate('wcs_keys', dict(wit, key=k, restored=None, original=orig_hdr[k]))
             continue
-        d = _keydiff(exp_hdr[k], orig_hdr[k]) if k.startswith('CRPIX') else \
-            abs(float(exp_hdr[k]) - float(orig_hdr[k])) / abs(float(orig_hdr[k]))
+        a, b = float(exp_hdr[k]), float(orig_hdr[k])
+        if k.startswith('CRPIX'):
+            d = _keydiff(a, b)
+        elif k in ('CD1_2', 'CD2_1'):
+            d = abs(a - b) / (abs(b) if abs(b) > 1e-6 * cdmax else cdmax)
+            if b != 0.0:
+                o.count('offdiagonal_cd_terms_compared')
+        else:
+            d = abs(a - b) / abs(b)
         o.worst('wcs_key_restore_rel', d)
         if not d <= KEY_TOL:
             o.violate('wcs_keys', dict(wit, key=k, restored=repr(exp_hdr[k]), original=repr(orig_hdr[k])))
-    for k in ('CRVAL1', 'CRVAL2', 'CTYPE1', 'CTYPE2', 'CD1_2', 'CD2_1', 'CUNIT1', 'CUNIT2', 'BMAJ', 'BMIN', 'BPA'):
+    untouched = ['CRVAL1', 'CRVAL2', 'CTYPE1', 'CTYPE2', 'CUNIT1', 'CUNIT2', 'EQUINOX', 'RADESYS', 'LONPOLE', 'LATPOLE',
+                 'CROTA2', 'BMAJ', 'BMIN', 'BPA'] + [k for k in orig_hdr if str(k).startswith(('PC', 'PV'))]
+    for k in untouched:
         if k in orig_hdr and (k not in exp_hdr or exp_hdr[k] != orig_hdr[k]):
             o.violate('wcs_keys_untouched', dict(wit, key=k, restored=repr(exp_hdr.get(k)), original=repr(orig_hdr[k])))
+    for k in exp_hdr:            # no celestial WCS keyword may appear that the original did not have
+        if str(k).startswith(('CD1_', 'CD2_', 'CDELT1', 'CDELT2', 'PC1_', 'PC2_', 'CROTA')) and k not in orig_hdr \
+                and float(exp_hdr[k]) != 0.0:
+            o.violate('wcs_keys', dict(wit, key=k, restored=repr(exp_hdr[k]), original=None))
     if ('CD1_1' in orig_hdr) != ('CD1_1' in exp_hdr) or ('CDELT1' in orig_hdr) != ('CDELT1' in exp_hdr):
         o.violate('wcs_keys', dict(wit, key='CD/CDELT form changed'))
     try:
@@ -314,7 +393,8 @@ def roundtrip(ft, fits, o, rng, rows, cols, f, idx, mode, tmp, linear=True, dtyp
             exp_hdr = e[0].header
             o.count('roundtrips_mem')
         judge(o, wit, img, orig_hdr, comp_data, exp_data, exp_hdr, f, KL, judged_linear=linear)
-        _compressed_wcs_info(o, orig_hdr, comp_hdr, rows, cols, f)
+        if hinfo['cd_form'] == 'none':     # for rotated inputs the compressed file's own WCS is outside the statement
+            _compressed_wcs_info(o, orig_hdr, comp_hdr, rows, cols, f)
         o.count('roundtrips')
         o.n_eval += 1
         if f > 1:
@@ -333,6 +413,9 @@ def roundtrip(ft, fits, o, rng, rows, cols, f, idx, mode, tmp, linear=True, dtyp
             o.count('factor_1')
         if hinfo['cd']:
             o.count('cd_headers')
+        if hinfo['cd_form'] != 'none':
+            o.count('cd_' + hinfo['cd_form'])
+            o.count('cd_offdiagonal_headers')
         if hinfo['nonint']:
             o.count('noninteger_crpix')
         if hinfo['neg_cdelt2']:
@@ -437,7 +520,7 @@ def sr6_case(o, rng, rows, cols, f, idx, tmp, variant):
     from astropy.io import fits
     from AegeanTools.CLI import SR6
     import logging
-    hdr, hinfo = header_for(idx, rows, cols, rng)
+    hdr, hinfo = header_for(idx, rows, cols, rng, allow_rot=(variant != 'default_factor'))
     if variant == 'default_factor':
         # factor = get_step_size(header) = ceil(4*sqrt(bmaj*bmin)/pixel scale); choose the beam to get f
         pix = np.sqrt(abs((hdr.get('CDELT1') or hdr.get('CD1_1')) * (hdr.get('CDELT2') or hdr.get('CD2_2'))))
@@ -580,6 +663,7 @@ def run(case):
     from astropy.io import fits
     from AegeanTools import fits_tools as ft
     wz.selfcheck()
+    selfcheck_rotated()
     o = Obs()
     rng = rng_for(*case['seed'])
     tmp = scratch_dir()
